@@ -1215,7 +1215,16 @@ CONFIG["C07"] = dict(
                "through a probe at least 750 ms old; an announcement is built only from active records and carries PTR, subtype "
                "PTR, SRV, TXT, addresses as answers; nothing is answered for services that are not Announced; under a timely "
                "scheduler a probe sends at exactly T, T+250, T+500 and ends at T+750 whatever else happens in between "
-               "(probe_timeline), each query asking ANY for the name with all the probe's records as authorities; after "
+               "(probe_timeline), each query asking ANY for the name with all the probe's records as authorities; the same "
+               "schedule INSIDE the daemon loop for any daemon state with a fresh probe of a name on an interface - other "
+               "probes, services, interfaces, queued re-runs arbitrary, idle iterations at T, T+250, T+500, T+750 and any "
+               "others in between: the probe query for the name leaves on that interface (every family) in exactly the "
+               "iterations at T, T+250, T+500 and the probe's records are active after T+750 (probe_schedule_in_daemon, "
+               "probe_query_in_daemon); from the registration on, for ANY running daemon state: register(svc) at t0 under "
+               "jitter j creates, for every unique record the daemon does not hold, the probe of its name with start t0+j "
+               "(registration_starts_probe), and with j >= 1 and a timely scheduler the probe queries for that name leave in "
+               "exactly the iterations at t0+j, +250, +500 and the record is active after t0+j+750 "
+               "(registration_probe_lifecycle); after "
                "prepare_announce every unique record is active or in the probe of its name; a new probe starts at now+jitter; "
                "and the complete life cycle (three probes, nothing before, announcements at +750 and +1750 with the stated "
                "content) by kernel evaluation of the model for EVERY jitter 0..249 on a concrete registration and for a spread "
@@ -1224,7 +1233,12 @@ CONFIG["C07"] = dict(
                "`probe_lifecycle_full : Prop`; proved are its general building blocks and the exhaustive-jitter instances.",
     partial=["probe_lifecycle_full (arbitrary service data, interface and start time) is not proved as one theorem; proved: "
              "probe_timeline, probe_query_content, registration_probes_every_record, registration_probe_times, "
-             "probe_end_activates_records, announcement_needs_active, announced_records_active and the evaluated instances (probe_lifecycle_partial); missing: their composition through iter for a symbolic service",
+             "probe_end_activates_records, probe_schedule_in_daemon (one probe through iter, any state), "
+             "announcement_needs_active, announced_records_active and the evaluated instances (probe_lifecycle_partial); "
+             "registration_starts_probe, registration_probe_lifecycle (registration -> three probes -> record active, any "
+             "state), first_announcement / second_announcement (step contracts of wakeService and RegisterResend); "
+             "missing: composing the two announcements (at +750 and +1750) with the probe schedule through iter for a "
+             "symbolic service",
              "the history invariant 'an active record was in the authority section of three probe queries 250 ms apart' is "
              "false of the code without a timely scheduler and for shared probes (findings D31, D33, D34): proved instead is "
              "active_only_after_probe (the probe is at least 750 ms old)",
